@@ -31,13 +31,14 @@ func snapOf(s *State) HeapSnap {
 type pendingFact struct {
 	t       Term
 	pattern []Term
+	vars    []Term // bound variables of enclosing quantifiers collected so far
 }
 
 func (c *Ctx) addFact(t Term, pattern ...Term) {
 	if t.IsTrue() {
 		return
 	}
-	c.pending = append(c.pending, pendingFact{t, pattern})
+	c.pending = append(c.pending, pendingFact{t: t, pattern: pattern})
 }
 
 // flushFacts moves collected side facts into the state (outside quantifiers).
@@ -135,7 +136,7 @@ func (f *Frame) call(in ssa.Instruction, cc *ssa.CallCommon, st *State) []Term {
 			// unknown unless the call was recorded on this path
 			return []Term{c.fresh("ghostres", SInt)}
 		}
-		if st.GhostUnknown {
+		if st.ghostAbsentUnknown(key) {
 			v := c.fresh("ghostunk", SBool)
 			if st.Ghost == nil {
 				st.Ghost = map[string]Term{}
@@ -144,6 +145,34 @@ func (f *Frame) call(in ssa.Instruction, cc *ssa.CallCommon, st *State) []Term {
 			return []Term{v}
 		}
 		return []Term{TFalse}
+	case "__calledPrefix":
+		// some function whose recorded name starts with the prefix was called
+		k, ok := cc.Args[0].(*ssa.Const)
+		if !ok {
+			c.unsupported(f, name+" needs a string literal")
+		}
+		if st.GhostUnknown {
+			if st.GhostLoopNames == nil || st.GhostLoopNames["*"] {
+				return []Term{c.fresh("ghostunk", SBool)}
+			}
+			for n := range st.GhostLoopNames {
+				if strings.HasPrefix(n, constant.StringVal(k.Value)) {
+					return []Term{c.fresh("ghostunk", SBool)}
+				}
+			}
+		}
+		var keys []string
+		for key := range st.Ghost {
+			if strings.HasPrefix(key, "called:"+constant.StringVal(k.Value)) {
+				keys = append(keys, key)
+			}
+		}
+		sort.Strings(keys)
+		var ds []Term
+		for _, key := range keys {
+			ds = append(ds, st.Ghost[key])
+		}
+		return []Term{Or(ds...)}
 	case "__resultStr", "__resultBool":
 		k, ok := cc.Args[0].(*ssa.Const)
 		ki, ok2 := cc.Args[1].(*ssa.Const)
@@ -506,6 +535,25 @@ func (f *Frame) ufCall(fn *ssa.Function, args [][]Term, st *State) []Term {
 			}
 		}
 	}
+	// Inside a quantifier the application is used as a trigger. Solvers expand
+	// define-fun macros and reject boolean connectives inside patterns, so
+	// ground arguments that are not plain constants are named by declared
+	// constants (with a defining equation) first.
+	{
+		anyQ := false
+		for _, a := range ufArgs {
+			for _, q := range c.quantVars {
+				if strings.Contains(a.S, q) {
+					anyQ = true
+				}
+			}
+		}
+		if anyQ {
+			for i, a := range ufArgs {
+				ufArgs[i] = c.atomFor(a)
+			}
+		}
+	}
 	res := layout(sig.Results())
 	out := make([]Term, len(res))
 	for k, l := range res {
@@ -598,13 +646,41 @@ func (f *Frame) quantifier(forall bool, cc *ssa.CallCommon, st *State) []Term {
 	// side facts that mention the bound variable are quantified themselves
 	for _, pf := range inner {
 		if strings.Contains(pf.t.S, qv.S) {
-			if len(pf.pattern) > 0 && strings.Contains(pf.pattern[0].S, qv.S) {
-				c.addFact(Forall([]Term{qv}, pf.t, pf.pattern))
-			} else {
-				c.addFact(Forall([]Term{qv}, pf.t))
+			pf.vars = append(append([]Term{}, pf.vars...), qv)
+		}
+		open := false
+		for _, q := range c.quantVars {
+			if strings.Contains(pf.t.S, q) {
+				open = true
 			}
+		}
+		if open || len(pf.vars) == 0 {
+			// still under an enclosing quantifier whose variable it mentions
+			// (one quantifier over all variables is emitted at the outermost
+			// level, so that the trigger binds them together), or ground
+			c.pending = append(c.pending, pf)
+			continue
+		}
+		usable := len(pf.pattern) > 0
+		for _, v := range pf.vars {
+			found := false
+			for _, p := range pf.pattern {
+				if strings.Contains(p.S, v.S) {
+					found = true
+				}
+			}
+			if !found {
+				usable = false
+			}
+		}
+		if usable {
+			var pats []Term
+			for _, p := range pf.pattern {
+				pats = append(pats, c.cleanPattern(p))
+			}
+			c.addFact(Forall(pf.vars, pf.t, pats))
 		} else {
-			c.addFact(pf.t, pf.pattern...)
+			c.addFact(Forall(pf.vars, pf.t))
 		}
 	}
 	var res Term
@@ -703,8 +779,8 @@ func (f *Frame) applyContract(in ssa.Instruction, cc *ssa.CallCommon, callee *ss
 	all := append(append([][]Term{}, args...), resVals...)
 	// ghost call records in a callee's postcondition speak about the callee's
 	// own calls, which the caller cannot see: they are unknown here
-	savedGhost, savedUnk := st.Ghost, st.GhostUnknown
-	st.Ghost, st.GhostUnknown = map[string]Term{}, true
+	savedGhost, savedUnk, savedNames := st.Ghost, st.GhostUnknown, st.GhostLoopNames
+	st.Ghost, st.GhostUnknown, st.GhostLoopNames = map[string]Term{}, true, nil
 	for _, cl := range blk.Post {
 		pa := all
 		if cl.RecvOnly {
@@ -713,7 +789,7 @@ func (f *Frame) applyContract(in ssa.Instruction, cc *ssa.CallCommon, callee *ss
 		t := c.evalSpecFn(cl.Fn, pa, st, old, f)[0]
 		st.assume(c, t)
 	}
-	st.Ghost, st.GhostUnknown = savedGhost, savedUnk
+	st.Ghost, st.GhostUnknown, st.GhostLoopNames = savedGhost, savedUnk, savedNames
 	if blk.Flags["trusted"] || blk.Flags["assume-contract"] {
 		c.note("assumed", "assumed contract of "+blk.QualName())
 	}
@@ -1091,8 +1167,8 @@ func (f *Frame) invoke(in ssa.Instruction, cc *ssa.CallCommon, st *State) []Term
 			off += n
 		}
 		all := append(append([][]Term{}, ic.args...), resVals...)
-		savedGhost, savedUnk := st.Ghost, st.GhostUnknown
-		st.Ghost, st.GhostUnknown = map[string]Term{}, true
+		savedGhost, savedUnk, savedNames := st.Ghost, st.GhostUnknown, st.GhostLoopNames
+		st.Ghost, st.GhostUnknown, st.GhostLoopNames = map[string]Term{}, true, nil
 		for _, cl := range ic.blk.Post {
 			pa := all
 			if cl.RecvOnly {
@@ -1101,7 +1177,7 @@ func (f *Frame) invoke(in ssa.Instruction, cc *ssa.CallCommon, st *State) []Term
 			t := c.evalSpecFn(cl.Fn, pa, st, old, f)[0]
 			st.assume(c, Implies(ic.cond, t))
 		}
-		st.Ghost, st.GhostUnknown = savedGhost, savedUnk
+		st.Ghost, st.GhostUnknown, st.GhostLoopNames = savedGhost, savedUnk, savedNames
 		if ic.blk.Flags["trusted"] || ic.blk.Flags["assume-contract"] {
 			c.note("assumed", "assumed contract of "+ic.blk.QualName())
 		}
